@@ -14,7 +14,10 @@ def main : IO Unit := do
   let P := F.prog
   let R := F.res P
   let out ← IO.getStdout
-  out.putStrLn s!"closed ptr={b2s (ptrClosed P R)} cg={b2s (cgClosed P R)} bad={F.bad.length}"
+  out.putStrLn s!"closed ptr={b2s (ptrClosed P R)} cg={b2s (cgClosed P R)} bad={F.bad.length} iq={b2s (iqClosed R)}"
+  for e in R.iq do
+    if R.reach e.1 && !(srcs (R.pt e.1 e.2.1) fun S => S.all fun l => subL (R.heap l) e.2.2) then
+      out.putStrLn s!"fail iq {e.1} {e.2.1}"
   for l in F.bad.reverse.take 5 do
     out.putStrLn s!"bad-record {l}"
   for g in P.roots do
